@@ -43,6 +43,7 @@ type symEval struct {
 	res    *resolver
 	fi     *FuncInfo
 	obj    types.Object
+	target string // alternatively: the location (field) whose value is followed, rendered canonically without spaces
 	use    ast.Node
 	assume func(key string) (truth, known bool)
 	found  bool
@@ -51,10 +52,40 @@ type symEval struct {
 
 func nospace(s string) string { return strings.ReplaceAll(s, " ", "") }
 
+// isVar: the expression denotes the followed variable / location.
+func (se *symEval) isVar(e ast.Expr) bool {
+	if se.obj != nil {
+		return objOf(se.info, e) == se.obj
+	}
+	return se.target != "" && nospace(se.res.str(e)) == se.target
+}
+
+// varName: how the followed variable appears in rendered expressions.
+func (se *symEval) varName() string {
+	if se.obj != nil {
+		return se.res.nameOf(se.obj)
+	}
+	return se.target
+}
+
+func mentionsText(expr, name string, isIdentName bool) bool {
+	if isIdentName {
+		return mentionsIdent(expr, name)
+	}
+	return strings.Contains(nospace(expr), name)
+}
+
+func replaceText(expr, name, by string, isIdentName bool) string {
+	if isIdentName {
+		return replaceIdent(expr, name, by)
+	}
+	return strings.ReplaceAll(nospace(expr), name, by)
+}
+
 // evalExpr renders rhs with the current value of the variable substituted and min/max decided.
 func (se *symEval) evalExpr(rhs ast.Expr, cur symVal) symVal {
 	rhs = unparen(rhs)
-	if id, ok := rhs.(*ast.Ident); ok && objOf(se.info, id) == se.obj {
+	if se.isVar(rhs) {
 		return cur
 	}
 	if call, ok := rhs.(*ast.CallExpr); ok && len(call.Args) == 2 {
@@ -78,8 +109,8 @@ func (se *symEval) evalExpr(rhs ast.Expr, cur symVal) symVal {
 	}
 	// conversions that keep the value: T(x) where x evaluates to a known value and T is the variable's type
 	s := se.res.str(rhs)
-	if mentionsIdent(s, se.res.nameOf(se.obj)) && !cur.undef && cur.s != "?" {
-		s = replaceIdent(s, se.res.nameOf(se.obj), cur.s)
+	if (se.obj != nil || se.target != "") && mentionsText(s, se.varName(), se.obj != nil) && !cur.undef && cur.s != "?" {
+		s = replaceText(s, se.varName(), cur.s, se.obj != nil)
 	}
 	return symVal{s: s, e: rhs}
 }
@@ -129,12 +160,24 @@ func (se *symEval) evalCond(cond ast.Expr, cur symVal) (truth, known bool) {
 		return false, false
 	}
 	key, pol := atomOf(se.res, se.info, se.l.parent, cond)
-	name := se.res.nameOf(se.obj)
-	if mentionsIdent(key, name) {
-		if cur.undef || cur.s == "?" {
-			return false, false
+	if se.obj != nil || se.target != "" {
+		name := se.varName()
+		if mentionsText(key, name, se.obj != nil) {
+			if cur.undef || cur.s == "?" {
+				return false, false
+			}
+			replaced := false
+			for _, op := range []string{" > ", " == "} {
+				if i := strings.Index(key, op); i > 0 {
+					key = replaceText(key[:i], name, cur.s, se.obj != nil) + op + replaceText(key[i+len(op):], name, cur.s, se.obj != nil)
+					replaced = true
+					break
+				}
+			}
+			if !replaced {
+				key = replaceText(key, name, cur.s, se.obj != nil)
+			}
 		}
-		key = replaceIdent(key, name, cur.s)
 	}
 	if t, k := se.assume(key); k {
 		return t == pol, true
@@ -205,16 +248,16 @@ func (se *symEval) assigns(n ast.Node) bool {
 		switch v := m.(type) {
 		case *ast.AssignStmt:
 			for _, l := range v.Lhs {
-				if objOf(se.info, l) == se.obj {
+				if se.isVar(l) {
 					out = true
 				}
 			}
 		case *ast.IncDecStmt:
-			if objOf(se.info, v.X) == se.obj {
+			if se.isVar(v.X) {
 				out = true
 			}
 		case *ast.UnaryExpr:
-			if v.Op == token.AND && objOf(se.info, v.X) == se.obj {
+			if v.Op == token.AND && se.isVar(v.X) {
 				out = true
 			}
 		}
@@ -234,7 +277,7 @@ func (se *symEval) stmt(st ast.Stmt, cur symVal) (symVal, bool) {
 			return cur, false
 		}
 		for i, l := range v.Lhs {
-			if objOf(se.info, l) != se.obj {
+			if !se.isVar(l) {
 				continue
 			}
 			if len(v.Lhs) == len(v.Rhs) && (v.Tok == token.ASSIGN || v.Tok == token.DEFINE) {
@@ -248,7 +291,7 @@ func (se *symEval) stmt(st ast.Stmt, cur symVal) (symVal, bool) {
 		if se.hit(v, cur) {
 			return cur, false
 		}
-		if objOf(se.info, v.X) == se.obj {
+		if se.isVar(v.X) {
 			cur = symUnknown
 		}
 		return cur, true
@@ -260,7 +303,7 @@ func (se *symEval) stmt(st ast.Stmt, cur symVal) (symVal, bool) {
 			for _, sp := range gd.Specs {
 				if vs, ok := sp.(*ast.ValueSpec); ok {
 					for i, nm := range vs.Names {
-						if se.info.Defs[nm] == se.obj {
+						if se.obj != nil && se.info.Defs[nm] == se.obj {
 							if i < len(vs.Values) {
 								cur = se.evalExpr(vs.Values[i], cur)
 							} else {
@@ -519,4 +562,62 @@ func clampHolds(l *Loaded, res *resolver, fi *FuncInfo, use ast.Expr, c clampSpe
 		return v.s
 	}
 	return false, "is not min(" + c.Src + ", " + c.limitName() + "): it evaluates to " + show(vals[0]) + " when " + c.Src + " > limit, to " + show(vals[1]) + " when " + c.Src + " < limit and to " + show(vals[2]) + " when they are equal"
+}
+
+// valueAtEnd evaluates the location target (canonical rendering, e.g. "r.largestFixedSize") at
+// the normal end of fi; its value on entry is its own name.
+func valueAtEnd(l *Loaded, res *resolver, fi *FuncInfo, target string, assume func(string) (bool, bool)) symVal {
+	se := &symEval{l: l, info: fi.Pkg.TypesInfo, res: res, fi: fi, target: nospace(target), assume: assume}
+	v, alive := se.walk(fi.Decl.Body.List, symVal{s: nospace(target)})
+	if !alive {
+		return symUnknown
+	}
+	return v
+}
+
+// maxHoldsAtEnd: at the end of fi the location target holds max(its value on entry, src).
+func maxHoldsAtEnd(l *Loaded, res *resolver, fi *FuncInfo, target, src string) (bool, string) {
+	t, s := nospace(target), nospace(src)
+	var vals [3]symVal
+	for sc := 0; sc < 3; sc++ {
+		scen := sc
+		assume := func(key string) (bool, bool) {
+			for _, op := range []string{" > ", " == "} {
+				i := strings.Index(key, op)
+				if i < 0 {
+					continue
+				}
+				a, b := nospace(key[:i]), nospace(key[i+len(op):])
+				var srcFirst bool
+				switch {
+				case a == s && b == t:
+					srcFirst = true
+				case a == t && b == s:
+					srcFirst = false
+				default:
+					continue
+				}
+				if op == " == " {
+					return scen == 2, true
+				}
+				if srcFirst {
+					return scen == 0, true
+				}
+				return scen == 1, true
+			}
+			return false, false
+		}
+		vals[sc] = valueAtEnd(l, res, fi, target, assume)
+	}
+	is := func(v symVal, want string) bool { return !v.undef && nospace(v.s) == want }
+	if is(vals[0], s) && is(vals[1], t) && (is(vals[2], s) || is(vals[2], t)) {
+		return true, target + " = max(" + target + ", " + src + ")"
+	}
+	show := func(v symVal) string {
+		if v.undef {
+			return "unassigned"
+		}
+		return v.s
+	}
+	return false, target + " becomes " + show(vals[0]) + " when " + src + " is larger, " + show(vals[1]) + " when it is smaller and " + show(vals[2]) + " when equal"
 }
